@@ -3,6 +3,7 @@ import random
 
 from .. import bootstrap  # noqa: F401
 from .. import inject
+from .c10 import Blank
 
 import usim
 from usim import Channel, StreamClosed, time, instant
@@ -73,7 +74,7 @@ def odd(ident):
 
 
 def unwrap(payload):
-    if isinstance(payload, (Twin, BaseException)):
+    if isinstance(payload, (Twin, Blank, BaseException)):
         return payload.ident
     return payload
 
@@ -303,6 +304,8 @@ def build_for(case):
         arena.start = case.get('start', 0)
         channel = inject.made(case, Channel)
         wrap = Twin if case.get('twins') else odd if case.get('odd') else str
+        if wrap is str and case['index'] % 3 == 1:
+            wrap = Blank
         if case.get('nones'):
             # every other message is None (a valid payload: it must not end an iteration)
             def wrap(message, plain=wrap):
